@@ -660,6 +660,10 @@ class DAGRunConcurrentManager(DAGRunManagerLike):
 
         to_unlock_descendants = True
 
+        # Only the request that really executes the node saves its artifact. Late duplicate requests get the result
+        # of the first one and must not save it again.
+        is_first_request = not self._node_storage.exists_processed_node(node_id)
+
         try:
             result = await self._execute_node(
                 force_default=force_default,
@@ -686,7 +690,9 @@ class DAGRunConcurrentManager(DAGRunManagerLike):
             self._node_storage.set_node_result(node_id, result)
 
             # TODO: Needs to reorganize saving policy for artifact storage
-            await self.ctx.save_node_result(node_id, result)
+            # Recurrent markers and failures contained by OneOf are not values of the node
+            if is_first_request and not isinstance(result, (Recurrent, BaseException)):
+                await self.ctx.save_node_result(node_id, result)
 
         finally:
             if not to_unlock_descendants:
